@@ -30,7 +30,7 @@ ASSUMPTIONS = ['base64, gzip, urllib.parse, hashlib of CPython', 'routes are com
                'substitution is not invertible for them; observation recorded in DESIGN.md)']
 REQUIRED = ['evaluations', 'route_groups_checked', 'route:path', 'route:path-upper', 'route:stream-kind', 'route:stream-name',
             'route:svgz-path', 'route:svgz-kind', 'route:png-data-uri', 'route:svg-data-uri', 'route:svg-inline', 'route:cli-main', 'route:cli-main-upper',
-            'route:cli-subprocess', 'cli_terminal_checked', 'sequence_saves_checked', 'unknown_extension_refused',
+            'route:cli-subprocess', 'cli_terminal_checked', 'sequence_saves_checked', 'sequence_cli_checked', 'unknown_extension_refused',
             'audit_open_events']
 TIMEOUT = {'quick': 3600, 'thorough': 21600}
 KINDS = ['png', 'svg', 'eps', 'pdf', 'txt', 'ans', 'pbm', 'pam', 'ppm', 'xbm', 'xpm', 'tex']
@@ -101,9 +101,12 @@ def gen_cases(tier, seed):
                 kw['desc'] = rng.choice(['desc', 'x & y < z'])
             if rng.random() < 0.2:
                 kw['svgid'] = rng.choice(['qr1', 'the-id'])
-            if rng.random() < 0.2:
+            if rng.random() < 0.1:
+                kw['svgclass'] = None
+                kw['lineclass'] = None
+            elif rng.random() < 0.2:
                 kw['svgclass'] = rng.choice(['cls', 'a b'])
-            if rng.random() < 0.2:
+            if 'lineclass' not in kw and rng.random() < 0.2:
                 kw['lineclass'] = rng.choice(['line', 'x y'])
             if rng.random() < 0.15:
                 kw['svgversion'] = rng.choice([1.1, 2.0])
@@ -122,6 +125,10 @@ def gen_cases(tier, seed):
         if rng.random() < 0.2:
             mk = {'micro': True}
             content = content[:4] if not content.isdigit() else content[:10]
+        if 'error' not in mk and rng.random() < 0.15:
+            mk['error_dash'] = True       # CLI spelling of "no error level given"
+        if not mk.get('micro') and rng.random() < 0.15:
+            mk['explicit_no_micro'] = True
         # symbol options that the command line has to hand over as well (every mask value incl. 0)
         if rng.random() < 0.5:
             mk['mask'] = rng.randint(0, 3 if mk.get('micro') else 7)
@@ -179,6 +186,9 @@ class NamedStringIO(io.StringIO):
 def cli_flags(kind, kw):
     """serializer keywords -> argv (independent flag table). Returns None if not expressible."""
     argv = []
+    if kind == 'svg' and kw.get('svgclass', 0) is None and kw.get('lineclass', 0) is None:
+        kw = {k: v for k, v in kw.items() if k not in ('svgclass', 'lineclass')}
+        argv.append('--no-classes')
     for k, v in kw.items():
         if k in ('compresslevel', 'compresslevel_svgz'):
             return None
@@ -204,8 +214,12 @@ def make_flags(mk, content):
     argv = []
     if mk.get('micro'):
         argv.append('--micro')
+    elif mk.get('explicit_no_micro'):
+        argv.append('--no-micro')
     if mk.get('error'):
         argv.append('--error=%s' % mk['error'])
+    elif mk.get('error_dash'):
+        argv.append('--error=-')
     if mk.get('version'):
         argv.append('--version=%s' % mk['version'])
     if mk.get('mask') is not None:
@@ -224,7 +238,7 @@ def run_routes(case, rec, tmp, opened):
     from segno import cli
     kind, kw = case['out'], dict(case['kw'])
     svgz_level = kw.pop('compresslevel_svgz', None)
-    q = segno.make(case['content'], **case['make'])
+    q = segno.make(case['content'], **{k: v for k, v in case['make'].items() if k not in ('error_dash', 'explicit_no_micro')})
     text = kind in TEXT
     res = {}
 
@@ -273,11 +287,19 @@ def run_routes(case, rec, tmp, opened):
         dkw.setdefault('nl', False)
         out = io.BytesIO()
         q.save(out, kind='svg', **dkw)
-        uri = q.svg_data_uri(**dict(kw))
+        # the two URI-only options change the envelope, never the document
+        variant = len(opened) % 4
+        ukw = dict(kw)
+        if variant & 1:
+            ukw['encode_minimal'] = True
+        if variant & 2:
+            ukw['omit_charset'] = True
+        uri = q.svg_data_uri(**ukw)
         head, _, payload = uri.partition(',')
         enc = kw.get('encoding', 'utf-8')
-        if head != 'data:image/svg+xml;charset=%s' % enc:
-            rec.deviation('C12', 'data-uri-header', {'head': head})
+        if head != ('data:image/svg+xml' if variant & 2 else 'data:image/svg+xml;charset=%s' % enc):
+            rec.deviation('C12', 'data-uri-header', {'head': head, 'options': {k: ukw[k] for k in ukw if k in ('encode_minimal', 'omit_charset')}})
+        rec.count('svg_data_uri_variant:%d' % variant)
         doc = urllib.parse.unquote_to_bytes(payload)
         doc = re.sub(rb"(=)'([^']+)'", rb'\1"\2"', doc)   # undo the URI-specific quote substitution
         rec.count('route:svg-data-uri')
@@ -396,6 +418,26 @@ def run_sequence(case, rec, tmp, opened):
         if blank_stamps(data) != blank_stamps(as_bytes(out.getvalue())):
             rec.deviation('C12', 'sequence-file-content', {'name': name, 'index': i})
     rec.seen('sequence|%s|%d' % (name, n))
+    # the same sequence through the command line tool: --seq --symbol-count=k -o <name>
+    if not any(ch in name for ch in '{}% '):
+        from segno import cli
+        d2 = tempfile.mkdtemp(prefix='seqcli-', dir=tmp)
+        argv = ['--seq', '--symbol-count=%d' % case['count'], '--output=%s' % os.path.join(d2, name)]
+        if case['kw'].get('scale') and kind not in ('txt', 'ans'):
+            argv.append('--scale=%s' % case['kw']['scale'])
+        argv.append(case['content'])
+        try:
+            rc = cli.main(argv)
+        except SystemExit as ex:
+            rc = ex.code
+        rec.count('sequence_cli_checked')
+        if rc != 0 or sorted(os.listdir(d2)) != expected:
+            rec.deviation('C12', 'sequence-cli-files', {'rc': rc, 'written': sorted(os.listdir(d2)), 'expected': expected})
+        else:
+            for fn_ in expected:
+                with open(os.path.join(d, fn_), 'rb') as f1, open(os.path.join(d2, fn_), 'rb') as f2:
+                    if blank_stamps(f1.read()) != blank_stamps(f2.read()):
+                        rec.deviation('C12', 'sequence-cli-content', {'file': fn_})
 
 
 def run_cases(cases, rec, tier='quick', seed='0'):
